@@ -30,8 +30,8 @@ claimed = {
  'C08': dict(level='proof', design='4.8',
    text="Every site where a received PREPREPARE / PREPARE / COMMIT / VIEW_CHANGE is stored (and thereby counted or answered) proves the statement's conditions as preconditions of the Storage operation: signature verified under the claimed sender, signed type matches, sender is a committee member, height is the node's height (established by the verified raw filter), role fits (leader / non-leader / addressed to me as leader of that view / not stale), proposals satisfy their hash, votes carry a valid prepared proof together with its block. ValidatePreparedProof is proved sound (one (height, earlier view, hash), leader-signed proposal, distinct member prepares, quorum weight, signed types). The four handlers, their helpers and the filter are verified for all message contents and all node states.",
    note="Trusted: govc, z3/cvc5. Assumed: Storage returns only what was stored (A-STORE, abstract log); KeyManager verdict is a function of (height, bytes, id, signature); membuffers accessors pure/total, iterators finite (A-MB-TOTAL, A-ITER); message factory output (trusted contracts, verified under C20 when claimed); receivers / SPI fields non-nil (A-NONNIL). Instance id of nested references (proof refs, votes) is not checked by the code and not claimed."),
- 'C07': dict(level='proof', design='4.7',
-   text="HandleNewView adopts a view and a proposal only after proving, at the adoption site: header signed by the leader of that view for this height, all votes read, each vote signed and of VIEW_CHANGE type for exactly (height, view), pairwise distinct senders, quorum weight (verified quorum functions), embedded proposal for that view and height from the leader, and either the highest-proof vote is valid and its hash is the re-proposed hash and the block satisfies it, or the fresh block passed this node's ValidateBlockProposal under a context still live. The leader side (checkElected / onElectedByViewChange) proves the same about the votes it counted before proposing. One obligation is an open known finding (K1): a bare PREPREPARE in the current view > 0 is accepted (an existing test asserts it), so run-level evidence is 'other' with discharged < obligations.",
+ 'C07': dict(level='other', design='4.7',
+   text="Deductive proof of every C07 obligation except one recorded known finding (K1), hence category other: all obligations but K1 are discharged on every run and K1 is printed as KNOWN-FINDING. HandleNewView adopts a view and a proposal only after proving, at the adoption site: header signed by the leader of that view for this height, all votes read, each vote signed and of VIEW_CHANGE type for exactly (height, view), pairwise distinct senders, quorum weight (verified quorum functions), embedded proposal for that view and height from the leader, and either the highest-proof vote is valid and its hash is the re-proposed hash and the block satisfies it, or the fresh block passed this node's ValidateBlockProposal under a context still live. The leader side (checkElected / onElectedByViewChange) proves the same about the votes it counted before proposing. One obligation is an open known finding (K1): a bare PREPREPARE in the current view > 0 is accepted (an existing test asserts it), so run-level evidence is 'other' with discharged < obligations.",
    note="Trusted: govc, z3/cvc5. Assumed: latestViewChangeVote picks the vote with the highest proof view (sort.Slice, A-SORT; body trusted for now); Storage abstract log; membuffers accessors/iterators; SPI purity. Known finding K1 listed in known_findings.json."),
  'C10': dict(level='proof', design='4.10',
    text="Single-node send log as ghost state: every PREPARE send proves no PREPARE was sent for that view, view == current view, hash == hash of the proposal accepted (first stored) for that view, and this node is not that view's leader; every COMMIT send proves the proposal for that view is accepted with that hash and (site assertion) a prepared certificate or commit quorum for exactly (view, hash) computed from the storage content for that key, and a re-send carries the same hash; every PREPREPARE/NEW_VIEW send proves this node leads the view, the view is current and nothing was proposed for it (with the invariant 'proposed(v) => latest elected view >= v'). The invariant tying the log to the stored proposals is preserved by every handler.",
